@@ -321,7 +321,7 @@ def float_cases(pos, rng, npool, nrand):
         out.append(FC.Case(pos, "f32", ["un", "-", x]))
         for t in ("i32", "u32", "bool", "f32"):
             out.append(FC.Case(pos, t, ["as", t, x]))
-        for f in ("abs", "sign", "floor", "ceil", "round", "trunc", "saturate", "sqrt"):
+        for f in ("abs", "sign", "floor", "ceil", "round", "trunc", "fract", "saturate", "sqrt"):
             out.append(FC.Case(pos, "f32", ["m1", f, x]))
         af = float_lit("AF", f64_bits_of_f32(a))
         for t in ("i32", "u32", "f32"):
@@ -436,21 +436,35 @@ def vector_cases(ctx, tools, exe, rng, n):
     reqs = []
     meta = []
     for i in range(n):
-        ty = rng.choice(["i32", "u32"])
+        ty = rng.choice(["i32", "u32", "f32"])
         size = rng.range(2, 4)
-        op = rng.choice(ARITH + SHIFT)
-        a = [rng.choice(POOL_I if ty == "i32" else POOL_U) for _ in range(size)]
-        b = [rng.choice(POOL_U[:9]) if op in SHIFT else rng.choice(POOL_I if ty == "i32" else POOL_U) for _ in range(size)]
-        la = [FC.typed(ty, v) for v in a]
-        lb = [FC.u32(v) if op in SHIFT else FC.typed(ty, v) for v in b]
-        for x, y in zip(la, lb):
-            reqs.append({"fn": "fold_expr", "e": ["bin", op, x, y]})
+        # operand shapes: vector op vector, scalar op vector (broadcast of the LEFT operand), vector op scalar
+        shape = ["vv", "sv", "vs"][i % 3]
+        if ty == "f32":
+            op = rng.choice(["+", "-", "*", "/"])
+            mk = lambda v: float_lit("F32", v)
+            pool = F32_POOL[:16]
+        else:
+            op = rng.choice(ARITH + SHIFT)
+            mk = (lambda v: FC.typed(ty, v))
+            pool = POOL_I if ty == "i32" else POOL_U
+        if op in SHIFT and shape == "sv":
+            shape = "vs"
+        na = 1 if shape == "sv" else size
+        nb = 1 if shape == "vs" else size
+        a = [rng.choice(pool) for _ in range(na)]
+        b = [rng.choice(POOL_U[:9]) if op in SHIFT else rng.choice(pool) for _ in range(nb)]
+        la = [mk(v) for v in a]
+        lb = [FC.u32(v) if op in SHIFT else mk(v) for v in b]
+        for j in range(size):
+            reqs.append({"fn": "fold_expr", "e": ["bin", op, la[j if na > 1 else 0], lb[j if nb > 1 else 0]]})
         vt = "vec%d<%s>" % (size, ty)
         vu = "vec%d<u32>" % size
-        src = ("var<private> pv: %s;\n@compute @workgroup_size(1)\nfn main() {\n  pv = %s(%s) %s %s(%s);\n}\n"
-               % (vt, vt, ", ".join(FC.render(x) for x in la), op, vu if op in SHIFT else vt, ", ".join(FC.render(y) for y in lb)))
+        ta = "%s(%s)" % (vt, ", ".join(FC.render(x) for x in la)) if na > 1 else "(%s)" % FC.render(la[0])
+        tb = ("%s(%s)" % (vu if op in SHIFT else vt, ", ".join(FC.render(y) for y in lb))) if nb > 1 else "(%s)" % FC.render(lb[0])
+        src = "var<private> pv: %s;\n@compute @workgroup_size(1)\nfn main() {\n  pv = %s %s %s;\n}\n" % (vt, ta, op, tb)
         progs.append({"id": i, "src": src, "want": ["ir"]})
-        meta.append((ty, size, op, src))
+        meta.append((ty, size, op + ":" + shape, src))
     res = vcheck.run_model(exe, reqs)
     out = nagarun.parallel_batches(tools["nagadrive"], "compile", progs, per_job_timeout=20.0, chunk=32)
     k = 0
